@@ -86,10 +86,13 @@ def main():
         merged = dict(prev)
         for c, v in res.items():
             pv = prev.get(c)
-            if pv and pv != v and not pv.startswith(v) and "after the check was strengthened" not in pv:
-                merged[c] = "%s (after the check was strengthened; first run: %s)" % (v, pv.split(" (")[0])
-            elif not pv:
+            head = lambda x: x.split(":")[0].split(" (")[0]
+            if not pv:
                 merged[c] = v
+            elif head(pv) != head(v):
+                first = pv.split("first run: ")[1].rstrip(")") if "first run: " in pv else head(pv)
+                base = v.split(" (after the check was strengthened")[0]
+                merged[c] = base if head(first) == head(base) and "first run: " not in pv else "%s (after the check was strengthened; first run: %s)" % (base, first)
         res = merged
         meta["checks_run"] = res
         json.dump(meta, open(os.path.join(dst, "meta.json"), "w"), indent=1)
